@@ -146,6 +146,29 @@ def _perturb(rec):
         common.lib_marshal(header.ProtocolHeader(*tri), 0)
     common.lib_unmarshal(b'\x08\x00\x00\x00\x00\x00\x00\xce')
     common.lib_unmarshal(b'\x01\x00\x01\x00\x00\x00\x04\x00\x0a\x00\x33\xce')
+    # the frames that CARRY reply codes, as peers send them: every code with
+    # a reply text that names every (other) error, in the spellings brokers
+    # and client libraries use; and codes no specification defines
+    import random as _random
+    from .. import refcodec
+    from ..gen import frames as _gf
+    for code in sorted(refspec.REPLY_CODES) + [200, 0, 599, 65535]:
+        for code2, (label2, _h) in sorted(refspec.REPLY_CODES.items()):
+            for text in (label2, label2 + ' - no queue \'q\'',
+                         label2.replace('-', '_') + ' - x', label2.lower(),
+                         label2.title().replace('-', '')):
+                for name_ in ('Connection.Close', 'Channel.Close',
+                              'Basic.Return'):
+                    sp_ = refspec.BY_NAME[name_]
+                    vals = _gf.assignment(_random.Random(code * 7 + code2),
+                                          sp_)
+                    vals['reply_code'] = code
+                    vals['reply_text'] = text
+                    try:
+                        common.lib_unmarshal(refcodec.enc_method(
+                            sp_.index, vals, 1))
+                    except refcodec.RefError:
+                        pass
     common.lib_unmarshal(b'AMQP')
     list(exceptions.CLASS_MAPPING.items())
     dict(vars(constants))
@@ -207,16 +230,28 @@ def _walk(rec, when):
                               (exceptions.AMQPError, 'reply-code-common-base'),
                               (exceptions.PAMQPException,
                                'reply-code-common-base')):
-            caught = False
-            try:
-                try:
-                    raise cls('x')
-                except catcher:
-                    caught = True
-            except Exception:
+            # raised the ways Python allows: with arguments, without, as a
+            # bare class, and through an application subclass that has no
+            # docstring and no attributes of its own
+            sub = type('App' + cls.__name__, (cls,), {})
+            for how, mk in (('with a message', lambda: cls('x')),
+                            ('without arguments', lambda: cls()),
+                            ('as a bare class', lambda: cls),
+                            ('with code and text', lambda: cls(code, 'text')),
+                            ('through a bare subclass, no arguments',
+                             lambda: sub()),
+                            ('through a bare subclass, as a class',
+                             lambda: sub)):
                 caught = False
-            _fact(rec, '%s catchable as %s' % (q, catcher.__name__), caught,
-                  True, mech)
+                try:
+                    try:
+                        raise mk()
+                    except catcher:
+                        caught = True
+                except BaseException:
+                    caught = False
+                _fact(rec, '%s raised %s is catchable as %s'
+                      % (q, how, catcher.__name__), caught, True, mech)
         # module attribute with that class is the same object
         _fact(rec, q + ' class reachable as module attribute',
               getattr(exceptions, cls.__name__, None) is cls, True,
